@@ -1,1 +1,32 @@
 //! Harness contracts for C09.
+//!
+//! `Batcher` is an intermediary contract an adversary (or an ordinary wallet) can put between
+//! the transaction and the timelock controller:
+//! * `fwd` merely forwards one call (the controller's authorization tree is still rooted at the
+//!   controller's own function);
+//! * `run` first requires `who`'s authorization for the batch itself and then performs one or two
+//!   calls, so that ONE authorization entry of `who` covers several contexts
+//!   (`[batch, call 1, call 2]`) in a single `__check_auth` invocation.
+//!
+//! The external target of C09 is `contracts::c08::target::Target`.
+
+pub mod batcher {
+    use soroban_sdk::{contract, contractimpl, Address, Env, Symbol, Val, Vec};
+
+    #[contract]
+    pub struct Batcher;
+
+    #[contractimpl]
+    impl Batcher {
+        pub fn fwd(e: &Env, target: Address, f: Symbol, args: Vec<Val>) -> Val {
+            e.invoke_contract::<Val>(&target, &f, args)
+        }
+        pub fn run(e: &Env, who: Address, target: Address, f1: Symbol, a1: Vec<Val>, f2: Option<Symbol>, a2: Vec<Val>) {
+            who.require_auth();
+            e.invoke_contract::<Val>(&target, &f1, a1);
+            if let Some(f2) = f2 {
+                e.invoke_contract::<Val>(&target, &f2, a2);
+            }
+        }
+    }
+}
